@@ -795,7 +795,25 @@ def gen_runs(tier, rng):
                 rank = 2 if min(shape) < 3 or rng.random() < 0.5 else 3
                 if name.startswith("parafac2"):
                     rank = min(rank, shape[2], shape[1])
-                yield name, entry, runner, opts, kind, shape, rank, seed, ks
+                yield name, entry, runner, opts, kind, shape, rank, seed, ks, None
+
+
+def corpus_runs():
+    """corpus/C06/*.json: pinned (configuration, tensor, rank, seed, prefix lengths) of past disagreements / witnesses; they run first"""
+    d = os.path.join(C.VERIF, "corpus", "C06")
+    if not os.path.isdir(d):
+        return
+    cfgs = {c[0]: c for c in configs("thorough")}
+    for fn in sorted(os.listdir(d)):
+        if not fn.endswith(".json"):
+            continue
+        try:
+            e = json.load(open(os.path.join(d, fn)))
+            name, entry, runner, opts, _, _, _ = cfgs[e["config"]]
+            X = C.from_jsonable_array(e["tensor"])
+            yield name, entry, runner, opts, e.get("data_kind", "generic"), X.shape, int(e["rank"]), int(e["seed"]), [int(k) for k in e["ks"]], X
+        except Exception as ex:   # a malformed corpus file is skipped, never a verdict
+            print(f"[C06] corpus file {fn} ignored: {type(ex).__name__}: {ex}")
 
 
 def one_run(runner, X, rank, k, seed, o):
@@ -896,9 +914,11 @@ def run(chk):
     skipped = 0
     nruns = 0
     ls_seen = {}
-    for (name, entry, runner, opts, kind, shape, rank, seed, ks) in gen_runs(chk.tier, rng):
+    for (name, entry, runner, opts, kind, shape, rank, seed, ks, X_pinned) in itertools.chain(corpus_runs(), gen_runs(chk.tier, rng)):
         light = False
-        if name in LS_CONFIGS and chk.tier == "quick":
+        if X_pinned is not None:
+            chk.hist("corpus", name)
+        if name in LS_CONFIGS and chk.tier == "quick" and X_pinned is None:
             # the first pick runs the configured prefixes; further seeds (Python predicates only, no Coq case unless the jump of the
             # last iteration was rejected) are drawn until three rejected-at-the-last-iteration runs have been seen: a rejected jump
             # is where a stale error would surface, and it only shows while ALS still makes progress
@@ -910,7 +930,7 @@ def run(chk):
                 ks = [(7, 9, 13)[seen["n"] % 3]]
                 light = True
         rs = np.random.RandomState(seed)
-        X = make_tensor(kind, shape, rank, rs)
+        X = make_tensor(kind, shape, rank, rs) if X_pinned is None else np.array(X_pinned, dtype=np.float64)
         if not np.any(X):
             continue
         o = concretise(opts, X, rank, rs)
